@@ -251,6 +251,10 @@ def run_case(case, ctx):
         # n_int with one other size
         _try(lambda: Fxp(val, n_frac=nfe, n_int=ib + rng.randint(0, 3), **kw))
         _try(lambda: Fxp(val, n_word=nfe + ib + s + 2, n_int=ib + 1, **kw))
+        _try(lambda: Fxp(val, n_word=nfe + ib + s, n_int=ib, **kw))          # (n_int may be 0)
+        if ib == 0:
+            _try(lambda: Fxp(val, n_word=nfe + s + rng.randint(0, 4), n_int=0, **kw))
+            _try(lambda: Fxp(val, n_frac=nfe + rng.randint(0, 2), n_int=0, **kw))
         return
     # capped case: non-dyadic doubles
     c = rng.choice(['third', 'small', 'rand', 'rand'])
@@ -266,3 +270,8 @@ def run_case(case, ctx):
     kw = {} if sg is None else {'signed': sg}
     _try(lambda: Fxp(v, **kw))
     _try(lambda: Fxp([v, v / 7.0], **kw))
+    # arrays mixing large and tiny magnitudes: the cap must take fraction bits away, not integer bits
+    big = abs(v) * 2.0 ** rng.randint(5, 35) + rng.randint(1, 1000)
+    if big < 2.0 ** 39:
+        _try(lambda: Fxp(np.array([big, v / 1024.0 / 3.0]), **kw))
+        _try(lambda: Fxp([v / 4096.0 / 7.0, big if sg is False else -big], **kw))
